@@ -292,7 +292,7 @@ _GENS = {"shapes": _gen_shapes, "decorated": _gen_decorated, "random": _gen_rand
 # precompute with a watchdog thread (CPU seconds / wall seconds / resident memory of the call): a broken precompute may
 # loop forever while allocating (e.g. `while remaining:` in enrich when the components are wrong), which must become a
 # reported failure, not a hung or swapped-out check.  After such a kill the parent restarts the worker behind the case.
-HANG_CPU_S, HANG_WALL_S, HANG_RSS_BYTES, MAX_HANGS = 8.0, 60.0, 500 << 20, 3
+HANG_CPU_S, HANG_WALL_S, HANG_RSS_BYTES, MAX_HANGS = 4.0, 60.0, 256 << 20, 3  # MAX_HANGS: restarts per run() over all spaces
 CL_TERM = "The pre-computed schedule partitions the job's tasks into exactly its weakly connected components (no schedule was produced at all)"
 
 
@@ -423,11 +423,10 @@ def _child(spec, residue, nproc, skip, deadline, wfd):
         os._exit(0)
 
 
-def _run_space(out, spec, name, driver, bound, deadline, nproc):
+def _run_space(out, spec, name, driver, bound, deadline, nproc, state):
     t0 = time.time()
     total = _Acc()
     notes = []
-    hangs = 0
     todo = [(r, 0) for r in range(nproc)]
     live = {}  # rfd -> [pid, residue, bytearray]
     inline = False
@@ -482,13 +481,15 @@ def _run_space(out, spec, name, driver, bound, deadline, nproc):
             total.merge(d)
             if "hang" in d:
                 k, case, observed = d["hang"]
-                hangs += 1
+                state["hangs"] = state.get("hangs", 0) + 1
                 total.fail(k, "C16/precompute-terminates", case, observed, CL_TERM)
-                if hangs < MAX_HANGS:
+                if state["hangs"] < MAX_HANGS:
                     todo.append((residue, k + 1))
                 else:
                     total.truncated = True
-                    notes.append("stopped after %d non-terminating cases" % hangs)
+                    note = "workers are not restarted after %d non-terminating cases in this run" % MAX_HANGS
+                    if note not in notes:
+                        notes.append(note)
     # ---- report
     failures = []
     for key in sorted(total.first, key=lambda q: (total.first[q][0], q)):
@@ -516,6 +517,7 @@ def run(out, tier, seed):
     t_start = time.time()
     budget = 600.0 if thorough else 45.0
     nproc = max(1, min(4, (os.cpu_count() or 1)))
+    state = {"hangs": 0}
     lg = logging.getLogger("cascade.scheduler.graph")
     old_level = lg.level
     lg.setLevel(logging.ERROR)  # "coptrs not found" is logged once per component
@@ -524,21 +526,21 @@ def run(out, tier, seed):
         _run_space(out, ("shapes", n_shapes), "job DAG shapes", "exhaustive enumeration",
                    "every DAG on 0..%d single-output tasks: every subset of the pairs i<j taken as edges i->j (all DAGs up to "
                    "renaming), one edge per pair; task names / dict order / edge order / positional-or-keyword varied with the "
-                   "case counter" % n_shapes, t_start + budget * 0.30, nproc)
+                   "case counter" % n_shapes, t_start + budget * 0.30, nproc, state)
         _run_space(out, ("decorated", 3, True), "multi-edges and multi-output tasks, 3 tasks", "exhaustive enumeration",
                    "3 tasks, each with 1 or 2 outputs; between every pair i<j zero, one or two edges i->j; every edge picks any "
                    "output of its source and is positional or keyword (all combinations, as multisets)",
-                   t_start + budget * (0.40 if thorough else 0.70), nproc)
+                   t_start + budget * (0.40 if thorough else 0.70), nproc, state)
         if thorough:
             _run_space(out, ("decorated", 4, False), "multi-edges and multi-output tasks, 4 tasks", "exhaustive enumeration",
                        "4 tasks, each with 1 or 2 outputs; between every pair i<j zero, one or two edges i->j; every edge picks "
                        "any output of its source (all combinations, as multisets); positional/keyword alternates",
-                       t_start + budget * 0.85, nproc)
+                       t_start + budget * 0.85, nproc, state)
         n_hi = 14 if thorough else 10
         count = 20000 if thorough else 1500
         _run_space(out, ("random", seed, count, n_shapes + 1, n_hi), "larger random job DAGs", "seeded random",
                    "%d jobs from random.Random(seed=%d): %d..%d tasks with 1-2 outputs, edge density 0.08-0.5 over the pairs of a "
                    "random topological order, 1-3 parallel edges per chosen pair, random output / positional-or-keyword / names / "
-                   "orders" % (count, seed, n_shapes + 1, n_hi), t_start + budget, nproc)
+                   "orders" % (count, seed, n_shapes + 1, n_hi), t_start + budget, nproc, state)
     finally:
         lg.setLevel(old_level)
